@@ -900,6 +900,10 @@ func LeakScenario(seed uint64, idx int) *LeakCase {
 	c := &LeakCase{}
 	switch idx % 8 {
 	case 0, 1, 2:
+		if idx%24 == 8 {
+			leakTrackJSON(r, c)
+			break
+		}
 		leakPrimitive(r, c)
 	case 3, 4:
 		leakComposite(r, c)
@@ -909,6 +913,51 @@ func LeakScenario(seed uint64, idx int) *LeakCase {
 		leakShipped(r, c)
 	}
 	return c
+}
+
+// leakTrackJSON: JSON documents decoded into a message whose data elements 35 / 36 / 45 are
+// Track2 / Track3 / Track1 FIELDS (TrackMsgSpec). Track fields have no UnmarshalJSON of their own:
+// encoding/json fills the struct by reflection, and what a producer put into a component (a
+// date with one wrong character, the card form of the track where the date belongs, a number
+// where text is expected) must not come back in the error text.
+func leakTrackJSON(r *LRng, c *LeakCase) {
+	digits := func(n int) string {
+		b := make([]byte, n)
+		for i := range b {
+			b[i] = byte('0' + r.Intn(10))
+		}
+		return string(b)
+	}
+	pan := digits(13 + r.Intn(7))
+	track := pan + "=" + digits(4) + "101" + digits(1+r.Intn(8))
+	c.Desc = "message with Track1/2/3 fields / UnmarshalJSON"
+	c.Class = "track-json"
+	c.Secrets = [][]byte{[]byte(pan), []byte(track)}
+	docs := []string{
+		`{"0":"0200","35":{"primary_account_number":"` + pan + `","separator":"=","expiration_date":"` + track + `"}}`,
+		`{"0":"0200","35":{"primary_account_number":"` + pan + `","expiration_date":"2031-07-19T08:43:5XZ` + pan + `"}}`,
+		`{"0":"0200","45":{"format_code":"B","primary_account_number":"` + pan + `","name":"DOE/JOHN","expiration_date":"` + pan + `"}}`,
+		`{"0":"0200","35":{"primary_account_number":` + pan + `}}`,
+		`{"0":"0200","36":{"format_code":"01","primary_account_number":"` + pan + `","discretionary_data":[` + pan + `]}}`,
+		`{"0":"0200","35":"` + track + `"}`,
+		`{"0":"0200","2":"` + pan + `","35":{"primary_account_number":"` + pan + `","expiration_date":"` + pan + `","service_code":101}}`,
+	}
+	for i, d := range docs {
+		d := d
+		c.try(fmt.Sprintf("json.Unmarshal(doc %d, message)", i), func() error {
+			return json.Unmarshal([]byte(d), iso8583.NewMessage(TrackMsgSpec))
+		})
+	}
+	// the same through a composite whose subfield is a track field
+	cs := &field.Spec{Length: 999, Description: "c", Pref: prefix.ASCII.LLL,
+		Tag: &field.TagSpec{Length: 2, Enc: encoding.ASCII, Sort: sort.StringsByInt},
+		Subfields: map[string]field.Field{
+			"01": field.NewTrack2(&field.Spec{Length: 40, Description: "t2", Enc: encoding.ASCII, Pref: prefix.ASCII.LL}),
+			"02": field.NewString(&field.Spec{Length: 19, Description: "pan", Enc: encoding.ASCII, Pref: prefix.ASCII.LL}),
+		}}
+	c.try("json.Unmarshal(doc, composite with a Track2 subfield)", func() error {
+		return json.Unmarshal([]byte(`{"02":"`+pan+`","01":{"primary_account_number":"`+pan+`","expiration_date":"`+track+`"}}`), field.NewComposite(cs))
+	})
 }
 
 // BerTagWitness: the recipe of KF-C18-1. A BER-TLV composite with Hex subfield 9F02 holding
